@@ -456,6 +456,18 @@ class remove_quotes_c:
     serves = ['C12', 'C07']
 
 
+def _rq_result(ex, st, env):
+    v = env['val']
+    if v is None:
+        return [(st, None)]
+    # a function of the argument: two calls on the same value give the same result
+    fn = z3.Function('py_remove_quotes', z3.StringSort(), z3.StringSort())
+    return [(st, SStr(fn(ex.z_str(v))))]
+
+
+remove_quotes_c.make_result = staticmethod(_rq_result)
+
+
 @contract('sqlparse.utils.remove_quotes', case='None')
 class remove_quotes_none:
     params = {'val': 'none'}
@@ -547,3 +559,28 @@ class _GroupTokensCallsite:
 
 
 REG['sqlparse.sql.TokenList.group_tokens'] = _GroupTokensCallsite
+
+
+# --------------------------------------------------------------------------------- get_parent_name (C12)
+
+def make_identifier(ex, st):
+    g = make_group(ex, st, 'self')
+    for it in st.lists[st.objs[g.oid]['tokens'].lid]:
+        if it[0] == 'seg':
+            ex.segs(st)[it[1]]['uni']['__values_nonempty__'] = True
+    st.assume(st.objs[g.oid]['CLS'] == ex.W.cls_const[ex.W.sql.Identifier])
+    return g
+
+
+@contract('sqlparse.sql.TokenList.get_parent_name')
+class get_parent_name_c:
+    """the qualifier is the nearest child before the FIRST dot that is not whitespace (DOT, PREV are the results of the
+    verified search helpers, computed once): its value without the surrounding quotes, None if there is no such child"""
+    exec_class = HeapExec
+    params = {'self': make_identifier}
+    requires = []
+    post_bind = {'DOT': "self.token_next_by(m=(T.Punctuation, '.'))", 'PREV': 'self.token_prev(DOT[0])'}
+    ensures = ['result is None if PREV[1] is None else True',
+               'result == remove_quotes(PREV[1].value) if PREV[1] is not None else True']
+    raises = []
+    serves = ['C12']
